@@ -7,7 +7,7 @@ from core import call_matches, call_names, op_place, op_local, backward_slice
 from props import shared
 
 LEVEL = 'proof'
-FLOOR = 12
+FLOOR = 51      # 70% of the 74 obligation instances derived on the tree the rules were last reviewed against
 EXPLANATION = ('(1) the change list of a btree transaction is ordered with the STABLE sort family and Operation\'s Ord compares keys only, so repeated keys '
                'keep the order given (the tree keeps the last of an equal-key run); (2) the iterator refreshes its tree and re-seeks whenever the column\'s '
                'last log record id differs from the one its state was built for, and every item fetched under an older record id is discarded before use; '
